@@ -83,6 +83,7 @@ class prove_avalI_macro(Macro):
     def eval(self, goal, ths):
         assert isinstance(goal, Term), "prove_avalI_macro"
         assert len(ths) == 0, "prove_avalI_macro"
+        assert goal.head == avalI and len(goal.args) == 3, "prove_avalI_macro: goal is not of the form avalI s t n"
         s, t, n = goal.args
         res = self.get_avalI(s, t)
         assert n == Nat(res), "prove_avalI_macro: wrong result"
